@@ -26,7 +26,7 @@ one() {
     git -C /repo worktree remove --force $W/repo >/dev/null 2>&1; rm -rf $W; return
   fi
   mkdir -p $W/out $W/tmp
-  VERIF_TMP=$W/tmp timeout 1500 $W/hs $prop --tier quick --seed 1 --out $W/out --corpus /verif/corpus > $W/out/log 2>&1
+  VERIF_NO_SHRINK=1 VERIF_STOP_AFTER_FAILS=1 VERIF_TMP=$W/tmp timeout 1500 $W/hs $prop --tier quick --seed 1 --out $W/out --corpus /verif/corpus > $W/out/log 2>&1
   python3 - "$id" "$prop" "$W" <<'PY'
 import json, sys
 sid, prop, w = sys.argv[1:4]
